@@ -1438,6 +1438,69 @@ where
     );
 }
 
+// ---------------------------------------------------------------------------------------------
+// poly_interpret_eval (public, used by Prio2): interpolate `points` given at the n-th roots of unity and
+// evaluate at x, using a caller-supplied scratch buffer that may be LONGER than n and hold stale data.
+fn interpret_eval_check<F>(run: &Run, fname: &str)
+where
+    F: pvh::kit::ints::KitField,
+    F::Integer: pvh::kit::ints::IntConv,
+{
+    use pvh::kit::ints::{addmod, modpow, mulmod};
+    let p = F::p();
+    let mut st = run.seed ^ pvh::engine::fnv(fname.as_bytes());
+    let mut rnd = || {
+        let hi = pvh::engine::splitmix(&mut st) as u128;
+        let lo = pvh::engine::splitmix(&mut st) as u128;
+        ((hi << 64) | lo) % p
+    };
+    for l in 0..=4usize {
+        let n = 1usize << l;
+        let Some(root) = F::root(l) else { continue };
+        let w = root.val();
+        let nodes: Vec<u128> = (0..n).map(|i| modpow(w, i as u128, p)).collect();
+        let mut point_sets: Vec<Vec<u128>> = (0..n).map(|k| (0..n).map(|i| (i == k) as u128).collect()).collect();
+        point_sets.push(vec![1; n]);
+        point_sets.push((0..n).map(|_| rnd()).collect());
+        point_sets.push(vec![p - 1; n]);
+        let mut xs: Vec<u128> = vec![0, 1, p - 1, 2 % p, rnd(), rnd()];
+        xs.extend(nodes.iter().cloned());
+        for (pi, pts) in point_sets.iter().enumerate() {
+            for &x in &xs {
+                // reference: sum_k y_k * prod_{j != k} (x - w^j) / (w^k - w^j)
+                let mut want = 0u128;
+                for k in 0..n {
+                    let mut num = 1u128;
+                    let mut den = 1u128;
+                    for j in 0..n {
+                        if j != k {
+                            num = mulmod(num, addmod(x, p - nodes[j], p), p);
+                            den = mulmod(den, addmod(nodes[k], p - nodes[j], p), p);
+                        }
+                    }
+                    let term = mulmod(mulmod(pts[k], num, p), modpow(den, p - 2, p), p);
+                    want = addmod(want, term, p);
+                }
+                let points: Vec<F> = pts.iter().map(|v| F::fe(*v)).collect();
+                for (si, scratch_len) in [n, n + 1, n + 3, 2 * n, 4 * n].into_iter().enumerate() {
+                    for junk in [0u128, 1, p - 1, 7 % p] {
+                        let mut scratch = vec![F::fe(junk); scratch_len];
+                        run.count("evaluations", 1);
+                        run.count("interpret_eval_cases", 1);
+                        let got = catch(|| hp::poly_interpret_eval(&points, F::fe(x), &mut scratch));
+                        let ok = matches!(&got, Ok(g) if g.val() == want);
+                        if !ok {
+                            run.fail(&format!("interpret_eval/{fname}/n={n}/scratch={}", ["n", "n+1", "n+3", "2n", "4n"][si]), &format!("poly_interpret_eval::<{fname}> with {n} points (set #{pi}) at x={x}, scratch of {scratch_len} elements pre-filled with {junk}: got {:?}, interpolation gives {want}", got.map(|g| g.val())), json!({"field": fname, "n": n, "points": pts.iter().map(|v| v.to_string()).collect::<Vec<_>>(), "x": x.to_string(), "scratch_len": scratch_len, "junk": junk.to_string()}));
+                            return;
+                        }
+                    }
+                }
+            }
+        }
+        run.distinct(pvh::engine::fnv(format!("interpret_eval/{fname}/{n}").as_bytes()));
+    }
+}
+
 fn main() {
     let run = Run::from_args("C10", Level::Exploration);
     run.rule("ntt / ntt_set_s / ntt_inv / get_ntt(_inv): every input vector over GF(17) for sizes 1,2,4 (and over the other small fields while p^n <= cap), then for every field and every power-of-two size up to the basis bound every standard basis vector with every output entry compared against the table of powers of the (order-validated) principal root; all-ones / all-(p-1) / seeded / short inputs against direct Horner evaluation; sizes above the basis bound on {e0,e1,e_last,ones} against closed forms. Lagrange routines: every basis polynomial x every point in {all 2n-th roots (so every node), 0, +-1, +-2, 1/2, 3, 4 seeded} against the product formula, mixed batches, double_evaluations on the basis, poly_mul_lagrange on all basis pairs (n<=16); extend_values_to_power_of_2 for every num_values in [0,n] on the basis + structured + seeded vectors; size/capacity violations must be Err. distinct = distinct (field, size, input) cases");
@@ -1511,5 +1574,10 @@ fn main() {
     run.note("error_variants_seen", json!(tally.lock().unwrap().clone()));
     run.exhaustive(true);
     run.note("exhaustive_scope", json!("every input vector: GF(17) sizes 1,2,4; GF(97), GF(193), GF(257) sizes 1,2; GF(12289) size 1. Every basis vector x every output: all fields up to the stated full_basis bound. Above that bound and for the Lagrange routines: the listed structured/seeded inputs only"));
+    interpret_eval_check::<FieldV17>(&run, "FieldV17");
+    interpret_eval_check::<FieldV97>(&run, "FieldV97");
+    interpret_eval_check::<FieldPrio2>(&run, "FieldPrio2");
+    interpret_eval_check::<Field64>(&run, "Field64");
+    interpret_eval_check::<Field128>(&run, "Field128");
     run.finish();
 }
